@@ -83,8 +83,11 @@ class AvroWriter(AbstractWriter):
         self.writer.flush()
 
     def close(self) -> None:
-        if self.fp and not is_stdout(self.fp):
-            self.fp.close()
+        if self.fp:
+            # fastavro buffers records per block, write out what is pending (or an empty container)
+            self.flush()
+            if not is_stdout(self.fp):
+                self.fp.close()
         self.fp = None
         self.writer = None
 
